@@ -206,10 +206,12 @@ def validate(name, scen, nw, struct, runs, wd, tag, invariants, markers=True):
     return accepted, rejections, stats
 
 
-def pool_part(chk, rng, thorough, wd, invariants, scenarios=None, big=True):
+def pool_part(chk, rng, thorough, wd, invariants, scenarios=None, big=True, only_big=False):
     prop = chk.prop
     struct = extract_structure()
     names = scenarios or sorted(pooldefs.SCENARIOS)
+    if only_big:
+        names = []
     # 1. every interleaving
     for nw in ((2, 3) if thorough else (2,)):
         for n in names:
